@@ -274,6 +274,48 @@ def cmp_lines(impl, model, op):
     return a == b
 
 
+INFO_CACHE = os.path.join(vlib.BUILD, "gen", "c12_info.json")
+
+
+def save_info(info):
+    slim = {"hpp_dir": info["hpp_dir"], "units": {k: {kk: v[kk] for kk in ("name", "fields", "opts", "optkeys")} for k, v in info["units"].items()}}
+    with open(INFO_CACHE, "w") as f:
+        json.dump(slim, f)
+
+
+def oracle_search(ctx):
+    """the translator failed: no model to compare with.  Still construct the real classes (with the
+    field table of the last good translation, if the harness still compiles with it) and report
+    what the property's own oracle finds — a concrete failing input instead of 'no-failing-input-found'."""
+    if not os.path.exists(INFO_CACHE) or not os.path.exists(os.path.join(vlib.BUILD, "gen", "c12_gen.hpp")):
+        return
+    info = json.load(open(INFO_CACHE))
+    for u in info["units"].values():
+        u["optkeys"] = {k: tuple(v) for k, v in u["optkeys"].items()}
+    lib = os.path.join(vlib.FULL, "lib")
+    try:
+        h = vlib.build_harness("c12", extra=["-I" + info["hpp_dir"]],
+                               libs=[os.path.join(lib, "libTaskBasedEngine.a"), os.path.join(lib, "libSharedEngine.a")])
+        ops = []
+        for f in (lom_ops, tm_ops, tbis_ops, psd_ops):
+            try:
+                ops += f(info, ctx)[0]
+            except RuntimeError:
+                pass
+    except vlib.HarnessBuildError:
+        return
+    rc, out, err = vlib.run_exe(h, "\n".join(ops) + "\n", args=["--leak-ok=" + ",".join(LEAKS_STATED_IN_LEAN)])
+    impl, orc = vlib.split_oracle(out)
+    ctx.cov["correspondence_streams"]["lifecycle-oracles-only"] = {"lines": len(ops), "oracle_failures": len(orc)}
+    for o in orc:
+        m = re.search(r"line=(\d+)", o)
+        i = int(m.group(1)) - 1 if m else 0
+        what = re.sub(r"line=\d+\s*", "", o[len("ORACLE"):]).strip()
+        mm = re.search(r"(\w+::\w+)", what)
+        ctx.violation("lifecycle:" + what.split()[0] + ":" + (mm.group(1) if mm else ops[i].split()[0]),
+                      "property fails on the implementation: " + what, {"stream": "lifecycle", "ops": [ops[i]], "oracle": o})
+
+
 def correspondence(ctx, info, ok):
     lib = os.path.join(vlib.FULL, "lib")
     h = vlib.build_harness("c12", extra=["-I" + info["hpp_dir"]],
@@ -682,10 +724,15 @@ def lsan_rhd_leaks(ctx, binary, info):
     env = dict(ASAN_ENV)
     env["ASAN_OPTIONS"] = env["ASAN_OPTIONS"].replace("detect_leaks=0", "detect_leaks=1")
     env["LSAN_OPTIONS"] = "exitcode=0:print_suppressions=0"
-    res, d = run_binary(binary, rhd_param(dict(layout=(2, 2, 1), live=True, mask=True, turbulence=True, per=(True, True, True))),
-                        ["--task-based-rhd"], 2, env=env, timeout=300)
-    shutil.rmtree(d, ignore_errors=True)
+    c = dict(layout=(2, 2, 1), live=True, mask=True, turbulence=True, per=(True, True, True), restart_interval="0. s", total_time=0.01)
+    d = tempfile.mkdtemp(prefix="verif_c12_")
+    res, _ = run_binary(binary, rhd_param(c), ["--task-based-rhd", "--number-of-steps", "2"], 2, env=env, timeout=300, keepdir=d)
     log = res["log"]
+    if res["rc"] == 0 and not res["timed_out"]:
+        # and the process restarted from that dump (its RestartReader must be deleted too)
+        res2, _ = run_binary(binary, rhd_param(c), ["--task-based-rhd", "--restart", "."], 2, env=env, timeout=300, keepdir=d)
+        log = log + "\n" + res2["log"]
+    shutil.rmtree(d, ignore_errors=True)
     if "LeakSanitizer has encountered a fatal error" in log or ("ERROR: LeakSanitizer" not in log and "SUMMARY" not in log):
         ctx.cov["lsan_rhd"] = "LeakSanitizer could not run here (ptrace not permitted?) or reported nothing: " + log[-200:].replace("\n", " | ")
         if "ERROR: LeakSanitizer" not in log and res["rc"] == 0 and "fatal error" not in log:
@@ -698,14 +745,14 @@ def lsan_rhd_leaks(ctx, binary, info):
     for blk in re.split(r"\n(?=(?:Direct|Indirect) leak of )", log):
         if not blk.startswith("Direct leak"):
             continue
-        m = re.search(r"#1 0x[0-9a-f]+ in TaskBasedRadiationHydrodynamicsSimulation::do_simulation[^\n]*?TaskBasedRadiationHydrodynamicsSimulation\.cpp:(\d+)", blk)
+        m = re.search(r"#[123] 0x[0-9a-f]+ in TaskBasedRadiationHydrodynamicsSimulation::do_simulation[^\n]*?TaskBasedRadiationHydrodynamicsSimulation\.cpp:(\d+)", blk)
         if not m:
             others += 1
             continue
         ln = int(m.group(1))
         var = None
         for k in range(ln - 1, max(ln - 6, 0), -1):
-            mm = re.search(r"(\w+)\s*=\s*(?:$|new\b)", src[k].strip()) if k < len(src) else None
+            mm = re.search(r"(\w+)\s*=\s*(?:$|new\b|\w+::\w+\()", src[k].strip()) if k < len(src) else None
             if mm:
                 var = mm.group(1)
                 break
@@ -753,7 +800,10 @@ def run(ctx):
                        "distributions x {normal, restart} constructor x {output off, on}; distinct = different op line, non-trivial = at least one pointer owned after the constructor. "
                        "whole runs (search): task-based RHD with/without radiation x live output / mask / turbulence / gravity / cooling x layouts x 1..4 threads, restart in two stages, dry runs, "
                        "task-based photoionization x diffuse / continuous source / trackers (incl. several per cell, weighted, in a copied subgrid); distinct = (binary, configuration)")
-    if info is not None:
+    if info is None:
+        oracle_search(ctx)
+    else:
+        save_info(info)
         okd = ok
         if not ok:
             # the theorems no longer check: still run the real classes to find a concrete failing input
@@ -772,6 +822,16 @@ def run(ctx):
                 lsan_rhd_leaks(ctx, abin, info)
         except RuntimeError as e:
             ctx.broken_obligation("sanitizer build: %s" % str(e)[:300], str(e))
+    # vlib reports theorems / streams that no longer check only when no failing input was found at
+    # all; C12 has recorded findings that fail on every run (and would mask them): report them
+    # explicitly
+    broken = getattr(ctx, "pending_broken", [])
+    if broken and any(v[3] for v in ctx.violations):
+        what = "; ".join(x[0] for x in broken)[:3000]
+        ctx.violation("unproved:" + hashlib.sha256(what.encode()).hexdigest()[:8], what,
+                      {"broken": [x[0] for x in broken], "detail": [x[1][-3000:] for x in broken],
+                       "note": "the named theorem / translator / correspondence stream no longer checks"}, found_input=False)
+        ctx.pending_broken = []
     ctx.cov["explanation"] = ("mechanism proved in Lean (pointer life cycle of the owners of optional components, every option vector), tied to the real classes by an "
                               "allocation-trace differential; the system-level claim (complete runs exit 0 without invalid memory use) is validated by replayable whole runs "
                               "(exit status; ASan/UBSan in the thorough tier), not proved")
